@@ -21,6 +21,7 @@ type incarnation struct {
 	alive   bool
 	reset   int  // connections dialled before the latest reset of this server's connections are broken
 	refuse  bool // new connections are refused (the listener is unreachable); established ones keep working
+	hang    bool // the process has stopped answering without closing its connections: calls never return
 }
 
 var registry = map[string]*incarnation{}
@@ -49,6 +50,14 @@ type Client struct {
 	closed bool
 	epoch  int // connections of an older epoch were reset by the network
 	reset  int
+}
+
+// Hang makes the server at addr stop answering (its connections stay up): a call to it does not return for a
+// virtual hour - net/rpc calls have no deadline.
+func Hang(addr string, on bool) {
+	if in := registry[addr]; in != nil {
+		in.hang = on
+	}
 }
 
 // ResetTo breaks every established connection TO addr (the server stays up, new dials succeed).
@@ -92,6 +101,10 @@ func (c *Client) Close() error {
 func (c *Client) Call(serviceMethod string, args any, reply any) error {
 	vrt.Yield(-6)
 	if c.closed || c.in == nil || !c.in.alive || c.epoch != epoch || c.reset != c.in.reset {
+		return ErrShutdown
+	}
+	if c.in.hang {
+		vrt.Sleep(3600e9)
 		return ErrShutdown
 	}
 	name := serviceMethod
